@@ -132,10 +132,8 @@ Record Ready (s : st) : Prop := {
 Lemma Inv_init : Inv init.
 Proof.
   constructor; cbn; try discriminate; auto.
-  - intro H; exfalso; apply H; reflexivity.
-  - intros [H|[]]; discriminate.
+  intros [H|[]]; discriminate.
 Qed.
-Ltac pinv := idtac.
 
 Lemma Inv_nopend s : Inv s -> line_rcvd s = false -> pending s = [].
 Proof.
@@ -294,7 +292,8 @@ Proof.
   assert (LA : line_rcvd s = true /\ await_titan s = false) by (apply i_pend0; rewrite P; discriminate).
   assert (T : timer s <> TArmed) by (intro H; destruct (i_armed0 H) as [H1 _]; congruence).
   split.
-  - constructor; cbn; try tauto. constructor; cbn; auto; try slia; try tauto.
+  - destruct LA as [LA1 LA2]. constructor; cbn; auto. constructor; cbn; auto.
+    intros [H|[]]. congruence.
   - intros ->. apply i_titan0. right. rewrite P. cbn. auto.
 Qed.
 
